@@ -38,7 +38,7 @@ def obligations(tier):
                     'samples': [(30, 4, 4), (31, 4, 4)], 'stubs': ['names modelled by their length (Span)']})
     from vf import skel
     ucfgs = [skel.cfg_of(3, None, None, True, False), skel.cfg_of(3, 3, '1.09', True, False)] if tier == 'quick' else [c for c in skel.pairwise_cfgs() if c['udf']] + [skel.cfg_of(3, None, None, True, False)]
-    for sk in ('sk1', 'sk2', 'sk3', 'sk7', 'sk10'):
+    for sk in ('sk1', 'sk2', 'sk3', 'sk7', 'sk10', 'sk11'):
         for c in ucfgs:
             params = {'sk': sk, 'cfg': c}
             b = 'three file lengths in [0, 0x3ffff800]'
@@ -58,6 +58,15 @@ def obligations(tier):
                         'samples': [(1, 2048, 2049), (0, 0, 0)],
                         'stubs': ['M_struct', 'M_out', 'M_image', 'UDF CRC/checksum constant under the solver (verified for real on the concrete samples and in replays)',
                                   'the anchor at the (symbolic) last sector is identified with the writer\'s one symbolic-position descriptor write by an equation, not by search']})
+    # File Link Count of hard-linked (non-directory) File Entries: kept in its own obligation -- it fails on the current tree and is a
+    # recorded finding (known_findings.txt); the other equations of the reader stay decided by the obligations above
+    for c in ucfgs[:1] if tier == 'quick' else ucfgs:
+        obs.append({'name': 'C10.b/udf_linkcount/sk11/%s' % skel.cfg_name(c), 'engine': 'chx', 'module': 'vf.props.C10_h', 'func': 'udf_reader',
+                    'params': {'sk': 'sk11', 'cfg': c, 'fixed': [2048, 2049], 'linkcount': True}, 'cond_timeout': 1500, 'path_timeout': 300,
+                    'bounds': 'skeleton sk11 (UDF hard links that stay); config %s; l0 in [0, 0x3ffff800], l1 = 2048, l2 = 2049; ONLY the equation '
+                              'File Link Count == number of File Identifier Descriptors identifying the File Entry, for non-directories' % skel.cfg_name(c),
+                    'functions': ['PyCdlib.add_hard_link', 'PyCdlib.rm_hard_link', 'UDFFileEntry.record', 'PyCdlib.write_fp'], 'samples': [],
+                    'stubs': ['M_struct', 'M_out', 'M_image', 'UDF CRC/checksum constant under the solver']})
     mt = 4 if tier == 'quick' else 5
     obs.append({'name': 'C10.d/symlink_rt/len_le%d' % mt, 'engine': 'chx', 'module': 'vf.props.C10_h', 'func': 'symlink_rt', 'params': {'maxt': mt},
                 'cond_timeout': 1500, 'path_timeout': 100,
